@@ -272,7 +272,7 @@ func probeKeys(c ConcCase) []int {
 var lastResult sched.Result
 
 func RunSched(c ConcCase) pbt.Outcome {
-	var m sync2.Map[int, int]
+	var m, m2 sync2.Map[int, int]
 	model, bad := runSetup(&m, c.Setup, c.Bulk, c.BulkPromote)
 	if bad != "" {
 		return pbt.Fail("%s", bad)
@@ -288,7 +288,11 @@ func RunSched(c ConcCase) pbt.Outcome {
 				val := 1 + ti*10 + oi
 				r := Rec{Th: ti, Op: op, Val: val, Inv: t.Now(), Resp: 1 << 30}
 				recs[ti] = append(recs[ti], r)
-				out, ok, pairs, calls := Exec(&m, op, val)
+				target := &m
+				if op.M == 1 {
+					target = &m2
+				}
+				out, ok, pairs, calls := Exec(target, op, val)
 				rr := &recs[ti][len(recs[ti])-1]
 				rr.Out, rr.OK, rr.Pairs, rr.Calls, rr.Resp = out, ok, pairs, calls, t.Now()
 			}
@@ -329,6 +333,24 @@ func RunSched(c ConcCase) pbt.Outcome {
 		hist = append(hist, r)
 	}
 
+	hist, hist2 := splitMaps(hist)
+	if len(hist2) > 0 {
+		labels["second-map-in-the-same-run"] = true
+		// quiescent postlude on the second map
+		for _, k := range keysOf(4) {
+			r := Rec{Th: -2, Op: MOp{K: "load", Key: k, M: 1}, Inv: s.Clock()}
+			r.Out, r.OK, _, _ = Exec(&m2, r.Op, 0)
+			r.Resp = s.Clock()
+			hist2 = append(hist2, r)
+		}
+		r := Rec{Th: -2, Op: MOp{K: "range", M: 1}, Inv: s.Clock()}
+		_, _, r.Pairs, r.Calls = Exec(&m2, r.Op, 0)
+		r.Resp = s.Clock()
+		hist2 = append(hist2, r)
+		if v := CheckHistory(map[int]int{}, keysOf(4), hist2); v != "" {
+			return pbt.Outcome{Violation: "SECOND map of the run: " + v + "\nits history:\n" + histString(hist2) + "\ntrace: " + traceString(res.Trace), Observed: obs}
+		}
+	}
 	if v := CheckHistory(model, universe(c), hist); v != "" {
 		obs["history"] = histString(hist)
 		return pbt.Outcome{Violation: v + "\nfull history:\n" + histString(hist) + "\ntrace: " + traceString(res.Trace), Observed: obs}
@@ -367,6 +389,18 @@ func RunSched(c ConcCase) pbt.Outcome {
 	}
 	sort.Strings(out.Labels)
 	return out
+}
+
+// splitMaps separates the calls on the first and on the second Map of a run.
+func splitMaps(h []Rec) (first, second []Rec) {
+	for _, r := range h {
+		if r.Op.M == 1 {
+			second = append(second, r)
+		} else {
+			first = append(first, r)
+		}
+	}
+	return
 }
 
 func traceString(tr []sched.Step) string {
@@ -414,6 +448,15 @@ func genConc(t *rapid.T, withSched bool) ConcCase {
 			}
 		}
 		c.Threads = append(c.Threads, prog)
+	}
+	if rapid.IntRange(0, 5).Draw(t, "twomaps") == 0 {
+		for i := range c.Threads {
+			for j := range c.Threads[i] {
+				if c.Threads[i][j].Key < 1000 && rapid.IntRange(0, 2).Draw(t, "onsecond") == 0 {
+					c.Threads[i][j].M = 1
+				}
+			}
+		}
 	}
 	if withSched {
 		p := rapid.SampledFrom([]int{4, 12, 30, 60}).Draw(t, "preempt%")
@@ -540,7 +583,7 @@ func RunStress(c ConcCase) pbt.Outcome {
 	}
 	overlapped := false
 	for rep := 0; rep < stressReps; rep++ {
-		var m sync2.Map[int, int]
+		var m, m2 sync2.Map[int, int]
 		model, bad := runSetup(&m, c.Setup, c.Bulk, c.BulkPromote)
 		if bad != "" {
 			return pbt.Fail("%s", bad)
@@ -572,7 +615,11 @@ func RunStress(c ConcCase) pbt.Outcome {
 				for oi, op := range prog {
 					val := 1 + ti*10 + oi
 					r := Rec{Th: ti, Op: op, Val: val, Inv: int(clock.Add(1))}
-					r.Out, r.OK, r.Pairs, r.Calls = Exec(&m, op, val)
+					target := &m
+					if op.M == 1 {
+						target = &m2
+					}
+					r.Out, r.OK, r.Pairs, r.Calls = Exec(target, op, val)
 					r.Resp = int(clock.Add(1))
 					recs[ti] = append(recs[ti], r)
 				}
@@ -598,6 +645,18 @@ func RunStress(c ConcCase) pbt.Outcome {
 		_, _, r.Pairs, r.Calls = Exec(&m, r.Op, 0)
 		r.Resp = int(clock.Add(1))
 		hist = append(hist, r)
+		hist, hist2 := splitMaps(hist)
+		if len(hist2) > 0 {
+			for _, k := range keysOf(4) {
+				r := Rec{Th: -2, Op: MOp{K: "load", Key: k, M: 1}, Inv: int(clock.Add(1))}
+				r.Out, r.OK, _, _ = Exec(&m2, r.Op, 0)
+				r.Resp = int(clock.Add(1))
+				hist2 = append(hist2, r)
+			}
+			if v := CheckHistory(map[int]int{}, keysOf(4), hist2); v != "" {
+				return pbt.Outcome{Violation: fmt.Sprintf("free-running repetition %d, SECOND map of the run: %s\nits history:\n%s", rep, v, histString(hist2))}
+			}
+		}
 		if v := CheckHistory(model, universe(c), hist); v != "" {
 			return pbt.Outcome{Violation: fmt.Sprintf("free-running repetition %d: %s\nfull history:\n%s", rep, v, histString(hist))}
 		}
